@@ -405,12 +405,12 @@ def run(tier):
         runner.e2e_methods = ("ref", "copy") if methods != "MethodsOne" else ("ref", "ref")
         for case in cases:
             runner.run_case(case, ctxs[case["c"]])
-        runner.report()
         ncases += len(cases)
         for case in cases[:: max(1, len(cases) // 3)][:3]:
             chk.sample({"reference": R(case["s"]), "consumer_stage": case["n"], "context": case["c"], "class": case["cls"],
                         "expand": R(case["expand"])})
         del emitted, cases
+    runner.report()
     # vacuity guard of the implication-shaped invariants: every class and every reason of the statement occurred
     for cls in ("direct", "component", "unspecified"):
         if not runner.classes.get(cls):
